@@ -21,6 +21,8 @@ from __future__ import print_function
 
 import abc
 
+import numpy as np
+
 from qkeras.qtools.quantized_operators import adder_impl
 from qkeras.qtools.quantized_operators import multiplier_factory
 from qkeras.qtools.quantized_operators import quantizer_impl
@@ -60,6 +62,43 @@ class IMerger(abc.ABC):
       self.edges.append(node[1])
 
 
+def _fixed_point_envelope(input_quantizers):
+  """Integer bits, fractional bits and signedness covering all the inputs.
+
+  Power-of-two inputs are converted to their fixed-point carrier first.
+
+  Returns:
+    (max_int_bits, max_frac_bits, is_signed, is_floating_point, float_bits)
+  """
+
+  max_int_bits = None
+  max_frac_bits = None
+  is_signed = False
+  is_floating_point = False
+  bits = 0
+  for quantizer in input_quantizers:
+    if quantizer.is_floating_point:
+      is_floating_point = True
+      bits = max(bits, quantizer.bits)
+    else:
+      if quantizer.is_po2:
+        qbits_quantizer = adder_impl.po2_qbits_converter(
+            quantizer)
+      else:
+        qbits_quantizer = quantizer
+
+      frac_bits = (qbits_quantizer.bits - int(qbits_quantizer.is_signed) -
+                   qbits_quantizer.int_bits)
+      if max_int_bits is None or qbits_quantizer.int_bits > max_int_bits:
+        max_int_bits = qbits_quantizer.int_bits
+      if max_frac_bits is None or frac_bits > max_frac_bits:
+        max_frac_bits = frac_bits
+
+    is_signed |= bool(quantizer.is_signed)
+
+  return (max_int_bits, max_frac_bits, is_signed, is_floating_point, bits)
+
+
 class Add(IMerger):
   """add a list of inputs."""
 
@@ -69,39 +108,21 @@ class Add(IMerger):
   def __init__(self, input_qe_list):
     super().__init__(input_qe_list)
 
-    max_bits = -1
-    max_int_bits = -1
-    is_signed = False
-
-    bits = 0
-    is_floating_point = False
-    for quantizer in self.input_quantizers:
-      if quantizer.is_floating_point:
-        is_floating_point = True
-        bits = max(bits, quantizer.bits)
-      else:
-        if quantizer.is_po2:
-          qbits_quantizer = adder_impl.po2_qbits_converter(
-              quantizer)
-        else:
-          qbits_quantizer = quantizer
-
-        if qbits_quantizer.bits > max_bits:
-          max_bits = qbits_quantizer.bits
-
-        if qbits_quantizer.int_bits > max_int_bits:
-          max_int_bits = qbits_quantizer.int_bits
-
-      is_signed |= quantizer.is_signed
+    (max_int_bits, max_frac_bits, is_signed, is_floating_point,
+     bits) = _fixed_point_envelope(self.input_quantizers)
 
     if is_floating_point:
       self.output = quantizer_impl.FloatingPoint(
           bits=bits)
     else:
+      # the sum of n values needs ceil(log2(n)) more integer bits than the
+      # widest input; the fractional resolution is that of the finest input
+      grow = int(np.ceil(np.log2(max(len(self.input_quantizers), 1))))
       self.output = quantizer_impl.QuantizedBits()
-      self.output.bits = max_bits + 1
-      self.output.int_bits = max_int_bits + 1
+      self.output.int_bits = max_int_bits + max(grow, 1)
       self.output.is_signed = is_signed
+      self.output.bits = (self.output.int_bits + max_frac_bits +
+                          int(is_signed))
       self.output.mode = 0
       self.output.is_floating_point = False
       self.output.is_po2 = 0
@@ -163,36 +184,19 @@ class Maximum(IMerger):
     if is_same:
       self.output = quantizer
     else:
-      max_bits = -1
-      max_int_bits = -1
-      is_signed = False
-      for quantizer in self.input_quantizers:
-        if quantizer.is_floating_point:
-          is_floating_point = True
-          bits = max(bits, quantizer.bits)
-        else:
-          if quantizer.is_po2:
-            qbits_quantizer = adder_impl.po2_qbits_converter(
-                quantizer)
-          else:
-            qbits_quantizer = quantizer
-
-          if qbits_quantizer.bits > max_bits:
-            max_bits = qbits_quantizer.bits
-
-          if qbits_quantizer.int_bits > max_int_bits:
-            max_int_bits = qbits_quantizer.int_bits
-
-        is_signed |= quantizer.is_signed
+      (max_int_bits, max_frac_bits, is_signed, is_floating_point,
+       bits) = _fixed_point_envelope(self.input_quantizers)
 
       if is_floating_point:
         self.output = quantizer_impl.FloatingPoint(
             bits=bits)
       else:
+        # every input value must stay representable: widest integer part and
+        # finest fractional part over the inputs
         self.output = quantizer_impl.QuantizedBits()
-        self.output.bits = max_bits
         self.output.int_bits = max_int_bits
         self.output.is_signed = is_signed
+        self.output.bits = max_int_bits + max_frac_bits + int(is_signed)
         self.output.mode = 0
         self.output.is_floating_point = False
         self.output.is_po2 = 0
